@@ -50,22 +50,23 @@ Lemma pend_for_notify_seq : forall (st : state) p ops s q n a,
   pend_for (flat_map (fun s' => if subscribed st s' p then map (fun o => (s', p, o)) ops else []) (seq a n)) s q
   = if (a <=? s) && (s <? a + n) && subscribed st s p && path_eqb p q then ops else [].
 Proof.
-  intros st p ops s q n. induction n as [|n IH]; intro a; simpl.
-  - replace (s <? a + 0) with false by (symmetry; apply Nat.ltb_ge; lia).
-    rewrite andb_false_r. reflexivity.
-  - rewrite pend_for_app, IH.
-    assert (Hhead : pend_for (if subscribed st a p then map (fun o => (a, p, o)) ops else []) s q
-                    = if Nat.eqb a s && subscribed st s p && path_eqb p q then ops else []).
-    { destruct (Nat.eqb_spec a s) as [->|Hne].
-      - destruct (subscribed st s p); simpl; [rewrite pend_for_map, Nat.eqb_refl; reflexivity | reflexivity].
-      - simpl. destruct (subscribed st a p); [|reflexivity]. rewrite pend_for_map.
-        replace (Nat.eqb a s) with false by (symmetry; apply Nat.eqb_neq; exact Hne). reflexivity. }
+  intros st p ops s q n. induction n as [|n IH]; intro a; cbn [seq flat_map].
+  - cbn [pend_for flat_map]. replace ((a <=? s) && (s <? a + 0)) with false; [reflexivity|].
+    destruct (Nat.leb_spec a s), (Nat.ltb_spec s (a + 0)); try reflexivity; lia.
+  - rewrite pend_for_app, IH. cbv beta.
+    match goal with |- ?x ++ _ = _ =>
+      assert (Hhead : x = if Nat.eqb a s && subscribed st s p && path_eqb p q then ops else []) end.
+    { destruct (Nat.eqb a s) eqn:Ea.
+      - apply Nat.eqb_eq in Ea. subst a.
+        destruct (subscribed st s p); simpl; [rewrite pend_for_map, Nat.eqb_refl; reflexivity | reflexivity].
+      - simpl. destruct (subscribed st a p); [|reflexivity]. rewrite pend_for_map. rewrite Ea. reflexivity. }
     rewrite Hhead.
-    destruct (Nat.eqb_spec a s) as [->|Hne].
-    + replace (S s <=? s) with false by (symmetry; apply Nat.leb_gt; lia). simpl. rewrite app_nil_r.
+    destruct (Nat.eqb a s) eqn:Ea.
+    + apply Nat.eqb_eq in Ea. subst a.
+      replace (S s <=? s) with false by (symmetry; apply Nat.leb_gt; lia). cbn [andb]. rewrite app_nil_r.
       replace (s <=? s) with true by (symmetry; apply Nat.leb_le; lia).
       replace (s <? s + S n) with true by (symmetry; apply Nat.ltb_lt; lia). reflexivity.
-    + simpl.
+    + apply Nat.eqb_neq in Ea. cbn [andb app].
       assert (E : (S a <=? s) && (s <? S a + n) = (a <=? s) && (s <? a + S n)).
       { destruct (Nat.leb_spec (S a) s), (Nat.leb_spec a s), (Nat.ltb_spec s (S a + n)), (Nat.ltb_spec s (a + S n)); try reflexivity; lia. }
       rewrite E. reflexivity.
@@ -75,4 +76,877 @@ Lemma pend_for_notify : forall st p ops s q,
   pend_for (notify_events st p ops) s q = if (s <? st_n st) && subscribed st s p && path_eqb p q then ops else [].
 Proof.
   intros. unfold notify_events. rewrite pend_for_notify_seq. simpl. reflexivity.
+Qed.
+
+(* ------------------------------------------------------------------ delivery *)
+
+Lemma subscribed_subs : forall st st' s p, st_subs st' = st_subs st -> subscribed st' s p = subscribed st s p.
+Proof. intros st st' s p H. unfold subscribed. rewrite H. reflexivity. Qed.
+
+Lemma deliver1_fields : forall st e,
+  st_n (deliver1 st e) = st_n st /\ st_tree (deliver1 st e) = st_tree st /\ st_subs (deliver1 st e) = st_subs st /\
+  st_ipres (deliver1 st e) = st_ipres st /\ st_refl (deliver1 st e) = st_refl st /\ st_pend (deliver1 st e) = st_pend st.
+Proof. intros st [[s p] o]. simpl. repeat split; reflexivity. Qed.
+
+Lemma fold_deliver_fields : forall pe st,
+  st_n (fold_left deliver1 pe st) = st_n st /\ st_tree (fold_left deliver1 pe st) = st_tree st /\
+  st_subs (fold_left deliver1 pe st) = st_subs st /\ st_ipres (fold_left deliver1 pe st) = st_ipres st /\
+  st_refl (fold_left deliver1 pe st) = st_refl st /\ st_pend (fold_left deliver1 pe st) = st_pend st.
+Proof.
+  induction pe as [|e pe IH]; intro st; simpl.
+  - repeat split; reflexivity.
+  - destruct (IH (deliver1 st e)) as (A & B & C & D & E & F).
+    destruct (deliver1_fields st e) as (A' & B' & C' & D' & E' & F').
+    repeat split; congruence.
+Qed.
+
+Lemma fold_deliver_mirror : forall pe st s p,
+  st_mirror (fold_left deliver1 pe st) s p
+  = if subscribed st s p then replay (pend_for pe s p) (st_mirror st s p) else st_mirror st s p.
+Proof.
+  induction pe as [|[[s' p'] o] pe IH]; intros st s p.
+  - simpl. destruct (subscribed st s p); reflexivity.
+  - cbn [fold_left]. rewrite IH.
+    rewrite (subscribed_subs st (deliver1 st (s', p', o)) s p) by apply deliver1_fields.
+    change (pend_for ((s', p', o) :: pe) s p) with ((if Nat.eqb s' s && path_eqb p' p then [o] else []) ++ pend_for pe s p).
+    simpl st_mirror.
+    destruct (subscribed st s p) eqn:Es.
+    + destruct (Nat.eqb s' s) eqn:E1; simpl.
+      * apply Nat.eqb_eq in E1. subst s'. rewrite Nat.eqb_refl. simpl.
+        destruct (path_eqb p' p) eqn:E2; simpl.
+        -- apply path_eqb_eq in E2. subst p'. rewrite path_eqb_refl, Es. reflexivity.
+        -- rewrite path_eqb_sym, E2. reflexivity.
+      * rewrite Nat.eqb_sym, E1. reflexivity.
+    + destruct (Nat.eqb s s' && path_eqb p p' && subscribed st s' p') eqn:Eh; [|reflexivity].
+      apply andb_true_iff in Eh. destruct Eh as [Eh E3]. apply andb_true_iff in Eh. destruct Eh as [E1 E2].
+      apply Nat.eqb_eq in E1. apply path_eqb_eq in E2. subst. congruence.
+Qed.
+
+Lemma fold_deliver_hist : forall pe st s p,
+  st_hist (fold_left deliver1 pe st) s p
+  = if subscribed st s p then st_hist st s p ++ pend_for pe s p else st_hist st s p.
+Proof.
+  induction pe as [|[[s' p'] o] pe IH]; intros st s p.
+  - simpl. destruct (subscribed st s p); [rewrite app_nil_r|]; reflexivity.
+  - cbn [fold_left]. rewrite IH.
+    rewrite (subscribed_subs st (deliver1 st (s', p', o)) s p) by apply deliver1_fields.
+    change (pend_for ((s', p', o) :: pe) s p) with ((if Nat.eqb s' s && path_eqb p' p then [o] else []) ++ pend_for pe s p).
+    simpl st_hist.
+    destruct (subscribed st s p) eqn:Es.
+    + destruct (Nat.eqb s' s) eqn:E1; simpl.
+      * apply Nat.eqb_eq in E1. subst s'. rewrite Nat.eqb_refl. simpl.
+        destruct (path_eqb p' p) eqn:E2; simpl.
+        -- apply path_eqb_eq in E2. subst p'. rewrite path_eqb_refl, Es. simpl. rewrite <- app_assoc. reflexivity.
+        -- rewrite path_eqb_sym, E2. reflexivity.
+      * rewrite Nat.eqb_sym, E1. reflexivity.
+    + destruct (Nat.eqb s s' && path_eqb p p' && subscribed st s' p') eqn:Eh; [|reflexivity].
+      apply andb_true_iff in Eh. destruct Eh as [Eh E3]. apply andb_true_iff in Eh. destruct Eh as [E1 E2].
+      apply Nat.eqb_eq in E1. apply path_eqb_eq in E2. subst. congruence.
+Qed.
+
+(* ------------------------------------------------------------------ flush re-establishes the boundary invariant *)
+
+Lemma subscribed_lt : forall st s p, MidA st -> subscribed st s p = true -> s < st_n st.
+Proof.
+  intros st s p M H. destruct (Nat.lt_ge_cases s (st_n st)) as [Hl|Hg]; [exact Hl|].
+  unfold subscribed in H. rewrite (mA_n st M s Hg) in H. discriminate.
+Qed.
+
+Lemma J_ext : forall st st' s, st_ipres st' = st_ipres st -> st_tree st' = st_tree st -> J st s -> J st' s.
+Proof. intros st st' s H1 H2 H. unfold J in *. rewrite H1, H2. exact H. Qed.
+
+Lemma flush_Inv : forall st, MidA st -> I6 st -> Inv (flush st).
+Proof.
+  intros st M H6. unfold flush.
+  destruct (fold_deliver_fields (st_pend st) (with_pend st [])) as (A & B & C & D & E & F).
+  simpl in A, B, C, D, E, F.
+  split; [|split].
+  - constructor.
+    + rewrite B. apply (mA_twf st M).
+    + intros s p Hs. rewrite (subscribed_subs (with_pend st []) _ s p C) in Hs.
+      rewrite F, B. simpl. rewrite fold_deliver_mirror.
+      change (subscribed (with_pend st []) s p) with (subscribed st s p) in *. rewrite Hs. simpl.
+      apply (mA_sub st M s p Hs).
+    + intros s p Hs. rewrite (subscribed_subs (with_pend st []) _ s p C) in Hs.
+      rewrite F. split; [|reflexivity]. rewrite fold_deliver_mirror.
+      change (subscribed (with_pend st []) s p) with (subscribed st s p) in *. rewrite Hs. simpl.
+      apply (mA_unsub st M s p Hs).
+    + intros s p. rewrite fold_deliver_mirror, fold_deliver_hist.
+      change (subscribed (with_pend st []) s p) with (subscribed st s p). simpl.
+      destruct (subscribed st s p); [|apply (mA_hist st M)].
+      rewrite replay_app, (mA_hist st M). reflexivity.
+    + intros s Hs. rewrite A in Hs. rewrite C. apply (mA_n st M s Hs).
+  - intro s. apply (J_ext st); [exact D | exact B | apply H6].
+  - exact F.
+Qed.
+
+(* ------------------------------------------------------------------ generic effect of an index change at one node *)
+
+Lemma tree_step_MidA : forall st t' p ops,
+  MidA st -> twf t' ->
+  (forall q, q <> p -> index_at t' q = index_at (st_tree st) q) ->
+  replay ops (index_at (st_tree st) p) = index_at t' p ->
+  MidA (notify (with_tree st t') p ops).
+Proof.
+  intros st t' p ops M Hw Hother Hp. constructor; simpl.
+  - exact Hw.
+  - intros s q Hs. change (subscribed (notify (with_tree st t') p ops) s q) with (subscribed st s q) in Hs.
+    rewrite pend_for_app, pend_for_notify. simpl.
+    change (subscribed (with_tree st t') s p) with (subscribed st s p).
+    rewrite replay_app, (mA_sub st M s q Hs).
+    destruct (path_eqb p q) eqn:E.
+    + apply path_eqb_eq in E. subst q. rewrite Hs.
+      replace (s <? st_n st) with true by (symmetry; apply Nat.ltb_lt; eapply subscribed_lt; eassumption).
+      simpl. exact Hp.
+    + rewrite andb_false_r. simpl. symmetry. apply Hother. apply path_eqb_neq in E. congruence.
+  - intros s q Hs. change (subscribed (notify (with_tree st t') p ops) s q) with (subscribed st s q) in Hs.
+    destruct (mA_unsub st M s q Hs) as [H1 H2]. split; [exact H1|].
+    rewrite pend_for_app, pend_for_notify, H2. simpl.
+    change (subscribed (with_tree st t') s p) with (subscribed st s p).
+    destruct (path_eqb p q) eqn:E.
+    + apply path_eqb_eq in E. subst q. rewrite Hs, andb_false_r. reflexivity.
+    + rewrite andb_false_r. reflexivity.
+  - apply (mA_hist st M).
+  - apply (mA_n st M).
+Qed.
+
+Lemma tree_same_MidA : forall st t',
+  MidA st -> twf t' -> (forall q, index_at t' q = index_at (st_tree st) q) -> MidA (with_tree st t').
+Proof.
+  intros st t' M Hw Hsame. constructor; simpl.
+  - exact Hw.
+  - intros s q Hs. rewrite Hsame. apply (mA_sub st M s q Hs).
+  - apply (mA_unsub st M).
+  - apply (mA_hist st M).
+  - apply (mA_n st M).
+Qed.
+
+Lemma own_inj : forall s s' p, own s p = true -> own s' p = true -> s = s'.
+Proof.
+  intros s s' [|[x|x|x] p] H1 H2; simpl in *; try discriminate.
+  apply Nat.eqb_eq in H1. apply Nat.eqb_eq in H2. congruence.
+Qed.
+
+Lemma own_app : forall s p r, own s p = true -> own s (p ++ r) = true.
+Proof. intros s [|x p] r H; simpl in *; [discriminate | exact H]. Qed.
+
+Lemma I6_I6x : forall st s, I6 st -> I6x s st.
+Proof. intros st s H s' _. apply H. Qed.
+
+Lemma I6_set_ipres : forall st s, I6x s st -> I6 (set_ipres st s).
+Proof.
+  intros st s H s'. unfold J. simpl. destruct (Nat.eqb s' s) eqn:E; [left; reflexivity|].
+  apply Nat.eqb_neq in E. destruct (H s' E) as [H1|H1]; [left|right]; exact H1.
+Qed.
+
+Lemma I6x_set_ipres : forall st s s0, I6x s st -> I6x s (set_ipres st s0).
+Proof.
+  intros st s s0 H s' Hne. unfold J. simpl. destruct (H s' Hne) as [H1|H1]; [left|right; exact H1].
+  rewrite H1. destruct (Nat.eqb s' s0); reflexivity.
+Qed.
+
+(* indices that were empty stay empty: the flag invariant survives *)
+Lemma J_shrink : forall st st' s, st_ipres st' = st_ipres st ->
+  (forall q, index_at (st_tree st) q = [] -> index_at (st_tree st') q = []) -> J st s -> J st' s.
+Proof.
+  intros st st' s Hi Hs [H|H]; [left; rewrite Hi; exact H | right; intros p Hp; apply Hs, H, Hp].
+Qed.
+
+(* a change confined to a node owned by s does not concern the other sessions *)
+Lemma J_other : forall st st' s s' p, st_ipres st' = st_ipres st -> own s p = true -> s' <> s ->
+  (forall q, q <> p -> index_at (st_tree st') q = index_at (st_tree st) q) -> J st s' -> J st' s'.
+Proof.
+  intros st st' s s' p Hi Ho Hne Hq [H|H]; [left; rewrite Hi; exact H | right].
+  intros q Hoq. rewrite Hq; [apply H, Hoq|]. intro E. subst q. apply Hne. eapply own_inj; eassumption.
+Qed.
+
+(* ------------------------------------------------------------------ primitives keep Mid *)
+
+Lemma index_at_set_node : forall t p n n' q, lookup t p = Some n ->
+  index_at (set_node t p n') q = if path_eqb p q then index_of n' else index_at t q.
+Proof.
+  intros t p n n' q H. unfold index_at. rewrite lookup_set_node, H. destruct (path_eqb p q); reflexivity.
+Qed.
+
+Lemma index_at_add_node : forall t p q, index_at (add_node t p) q = index_at t q.
+Proof.
+  intros t p q. unfold index_at. rewrite lookup_add_node. destruct (lookup t q); [reflexivity|].
+  destruct (path_eqb p q); reflexivity.
+Qed.
+
+Lemma node_at_lookup : forall st p n, lookup (st_tree st) p = Some n -> node_at st p = n.
+Proof. intros st p n H. unfold node_at. rewrite H. reflexivity. Qed.
+
+Lemma has_node_lookup : forall t p, has_node t p = true -> exists n, lookup t p = Some n.
+Proof. intros t p H. unfold has_node in H. destruct (lookup t p) as [n|]; [exists n; reflexivity | discriminate]. Qed.
+
+Lemma put_idx_MidA : forall st p n n' ops,
+  MidA st -> lookup (st_tree st) p = Some n -> wfn (kids_of (st_tree st) p) n' ->
+  replay ops (index_of n) = index_of n' -> MidA (put_idx st p n' ops).
+Proof.
+  intros st p n n' ops M Hl Hw Hr. unfold put_idx. apply tree_step_MidA.
+  - exact M.
+  - apply twf_set_node; [apply (mA_twf st M) | exact Hw].
+  - intros q Hq. rewrite (index_at_set_node _ _ n) by exact Hl.
+    replace (path_eqb p q) with false; [reflexivity|]. symmetry. apply path_eqb_neq. congruence.
+  - rewrite (index_at_set_node _ _ n) by exact Hl. rewrite path_eqb_refl.
+    rewrite (index_at_lookup _ _ _ Hl). exact Hr.
+Qed.
+
+Lemma MidA_set_ipres : forall st s, MidA st -> MidA (set_ipres st s).
+Proof. intros st s M. destruct M. constructor; assumption. Qed.
+
+Lemma MidA_set_refl : forall st s v, MidA st -> MidA (set_refl st s v).
+Proof. intros st s v M. destruct M. constructor; assumption. Qed.
+
+Lemma I6_set_refl : forall st s v, I6 st -> I6 (set_refl st s v).
+Proof. intros st s v H s'. apply (H s'). Qed.
+
+(* what prim_remove_entry does *)
+Lemma prim_remove_entry_spec : forall st p k, MidA st ->
+  let st' := prim_remove_entry st p k in
+  MidA st' /\ st_ipres st' = st_ipres st /\ map fst (st_tree st') = map fst (st_tree st) /\
+  (forall q x, In x (index_at (st_tree st') q) -> In x (index_at (st_tree st) q) /\ (q = p -> x <> k)).
+Proof.
+  intros st p k M. unfold prim_remove_entry.
+  destruct (has_node (st_tree st) p) eqn:Eh.
+  2:{ simpl. split; [exact M|]. split; [reflexivity|]. split; [reflexivity|]. intros q x Hx. split; [exact Hx|].
+      intros -> . unfold index_at in Hx. unfold has_node in Eh. destruct (lookup (st_tree st) p); [discriminate | inversion Hx]. }
+  destruct (has_node_lookup _ _ Eh) as [n Hl]. rewrite (node_at_lookup _ _ _ Hl).
+  destruct (remove_index_entry n k) as [n' ops] eqn:Er.
+  destruct (remove_index_entry_spec (kids_of (st_tree st) p) n k n' ops (proj2 (mA_twf st M) p n Hl) Er) as (W & R & Nk & Sub & _).
+  cbv zeta. split; [eapply put_idx_MidA; eassumption|]. split; [reflexivity|]. split; [simpl; apply keys_set_node|].
+  intros q x Hx. simpl in Hx. rewrite (index_at_set_node _ _ n) in Hx by exact Hl.
+  destruct (path_eqb p q) eqn:E.
+  - apply path_eqb_eq in E. subst q. rewrite (index_at_lookup _ _ _ Hl). split; [apply Sub, Hx|].
+    intros _ Hk. subst x. contradiction.
+  - split; [exact Hx|]. intros ->. rewrite path_eqb_refl in E. discriminate.
+Qed.
+
+Lemma I6_shrink : forall st st', I6 st -> st_ipres st' = st_ipres st ->
+  (forall q x, In x (index_at (st_tree st') q) -> In x (index_at (st_tree st) q)) -> I6 st'.
+Proof.
+  intros st st' H Hi Hs s. apply (J_shrink st); [exact Hi | | apply H].
+  intros q Hq. destruct (index_at (st_tree st') q) as [|x l] eqn:E; [reflexivity|].
+  exfalso. assert (Hin : In x (index_at (st_tree st) q)) by (apply Hs; rewrite E; left; reflexivity).
+  rewrite Hq in Hin. inversion Hin.
+Qed.
+
+Lemma I6x_shrink : forall s st st', I6x s st -> st_ipres st' = st_ipres st ->
+  (forall q x, In x (index_at (st_tree st') q) -> In x (index_at (st_tree st) q)) -> I6x s st'.
+Proof.
+  intros s st st' H Hi Hs s' Hne. apply (J_shrink st); [exact Hi | | apply H; exact Hne].
+  intros q Hq. destruct (index_at (st_tree st') q) as [|x l] eqn:E; [reflexivity|].
+  exfalso. assert (Hin : In x (index_at (st_tree st) q)) by (apply Hs; rewrite E; left; reflexivity).
+  rewrite Hq in Hin. inversion Hin.
+Qed.
+
+Lemma prim_remove_entry_Mid : forall st p k, Mid st -> Mid (prim_remove_entry st p k).
+Proof.
+  intros st p k [M H6]. destruct (prim_remove_entry_spec st p k M) as (M' & Hi & _ & Hs).
+  split; [exact M'|]. apply (I6_shrink st); [exact H6 | exact Hi | intros q x Hx; apply (Hs q x Hx)].
+Qed.
+
+(* a fold of entry removals at one node *)
+Lemma remove_entries_spec : forall q ks st, MidA st ->
+  let st' := fold_left (fun st k => prim_remove_entry st q k) ks st in
+  MidA st' /\ st_ipres st' = st_ipres st /\ map fst (st_tree st') = map fst (st_tree st) /\
+  (forall p x, In x (index_at (st_tree st') p) -> In x (index_at (st_tree st) p)) /\
+  (forall x, In x (index_at (st_tree st') q) -> ~ In x ks).
+Proof.
+  intros q ks. induction ks as [|k ks IH]; intros st M; simpl.
+  - split; [exact M|]. split; [reflexivity|]. split; [reflexivity|]. split; [intros p x Hx; exact Hx | intros x _ Hx; exact Hx].
+  - destruct (prim_remove_entry_spec st q k M) as (M1 & I1 & K1 & S1).
+    destruct (IH (prim_remove_entry st q k) M1) as (M2 & I2 & K2 & S2 & D2).
+    split; [exact M2|]. split; [congruence|]. split; [congruence|]. split.
+    + intros p x Hx. apply (S1 p x). apply S2. exact Hx.
+    + intros x Hx [Hk|Hk].
+      * subst x. apply S2 in Hx. destruct (S1 q k Hx) as [_ Hne]. apply (Hne eq_refl). reflexivity.
+      * apply (D2 x Hx Hk).
+Qed.
+
+Lemma drain_node_spec : forall st q, MidA st ->
+  let st' := drain_node st q in
+  MidA st' /\ st_ipres st' = st_ipres st /\ map fst (st_tree st') = map fst (st_tree st) /\
+  (forall p x, In x (index_at (st_tree st') p) -> In x (index_at (st_tree st) p)) /\
+  index_at (st_tree st') q = [].
+Proof.
+  intros st q M. unfold drain_node.
+  destruct (remove_entries_spec q (kids_of (st_tree st) q) st M) as (M' & I' & K' & S' & D').
+  split; [exact M'|]. split; [exact I'|]. split; [exact K'|]. split; [exact S'|].
+  match goal with |- index_at ?t q = [] => destruct (index_at t q) as [|x l] eqn:E end; [reflexivity|].
+  exfalso. assert (Hx : In x (x :: l)) by (left; reflexivity).
+  apply (D' x Hx). apply kids_of_In. apply (twf_index_child _ _ _ (mA_twf st M)). apply S'. rewrite E. exact Hx.
+Qed.
+
+Lemma drain_all_spec : forall L st, MidA st ->
+  let st' := fold_left drain_node L st in
+  MidA st' /\ st_ipres st' = st_ipres st /\ map fst (st_tree st') = map fst (st_tree st) /\
+  (forall p x, In x (index_at (st_tree st') p) -> In x (index_at (st_tree st) p)) /\
+  (forall q, In q L -> index_at (st_tree st') q = []).
+Proof.
+  induction L as [|q L IH]; intros st M; simpl.
+  - split; [exact M|]. split; [reflexivity|]. split; [reflexivity|]. split; [intros p x Hx; exact Hx | intros q []].
+  - destruct (drain_node_spec st q M) as (M1 & I1 & K1 & S1 & D1).
+    destruct (IH (drain_node st q) M1) as (M2 & I2 & K2 & S2 & D2).
+    split; [exact M2|]. split; [congruence|]. split; [congruence|]. split.
+    + intros p x Hx. apply S1, S2, Hx.
+    + intros q' [->|Hq']; [|apply D2; exact Hq'].
+      match goal with |- index_at ?t q' = [] => destruct (index_at t q') as [|x l] eqn:E end; [reflexivity|].
+      exfalso. assert (Hx : In x (x :: l)) by (left; reflexivity). rewrite <- E in Hx. apply S2 in Hx. rewrite D1 in Hx. inversion Hx.
+Qed.
+
+Lemma has_node_keys : forall t t' p, map fst t = map fst t' -> has_node t p = has_node t' p.
+Proof.
+  induction t as [|[r m] t IH]; intros [|[r' m'] t'] p H; simpl in *; try discriminate; [reflexivity|].
+  inversion H; subst. unfold has_node in *. simpl. destruct (path_eqb r' p); [reflexivity | apply IH; assumption].
+Qed.
+
+Lemma has_node_delete : forall t v q, has_node (delete_subtree t v) q = has_node t q && negb (is_prefix v q).
+Proof.
+  intros t v q. unfold has_node. rewrite lookup_delete_subtree.
+  destruct (is_prefix v q); simpl; [rewrite andb_false_r; reflexivity | rewrite andb_true_r; reflexivity].
+Qed.
+
+Lemma removelast_snoc : forall (q : path) x, removelast (q ++ [x]) = q.
+Proof. intros q x. apply removelast_last. Qed.
+
+Lemma last_snoc : forall (q : path) x d, last (q ++ [x]) d = x.
+Proof. intros q x d. apply last_last. Qed.
+
+(* parent->RemoveChild(name, this, true) *)
+Lemma prim_remove_node_Mid : forall st v, Mid st -> Mid (prim_remove_node st v).
+Proof.
+  intros st v [M H6]. unfold prim_remove_node.
+  destruct (has_node (st_tree st) v && (2 <=? length v)) eqn:Eg; [|split; assumption].
+  destruct (drain_all_spec (subtree_paths (st_tree st) v) st M) as (M1 & I1 & K1 & S1 & D1).
+  set (st1 := fold_left drain_node (subtree_paths (st_tree st) v) st) in *.
+  destruct (prim_remove_entry_spec st1 (parent_of v) (last_name v) M1) as (M2 & I2 & K2 & S2).
+  set (st2 := prim_remove_entry st1 (parent_of v) (last_name v)) in *.
+  assert (W2 : twf (st_tree st2)) by apply (mA_twf st2 M2).
+  (* nodes at or below v hold an empty index by now *)
+  assert (Hempty : forall q, is_prefix v q = true -> index_at (st_tree st2) q = []).
+  { intros q Hq. destruct (index_at (st_tree st2) q) as [|x l] eqn:E; [reflexivity|]. exfalso.
+    assert (Hx : In x (index_at (st_tree st2) q)) by (rewrite E; left; reflexivity).
+    apply S2 in Hx. destruct Hx as [Hx _].
+    destruct (has_node (st_tree st) q) eqn:Eh.
+    - rewrite (D1 q) in Hx; [inversion Hx|]. apply subtree_paths_In. split; assumption.
+    - apply S1 in Hx. unfold index_at in Hx. unfold has_node in Eh. destruct (lookup (st_tree st) q); [discriminate | inversion Hx]. }
+  split.
+  - apply tree_same_MidA; [exact M2 | | ].
+    + split; [apply keys_delete_NoDup; apply W2|].
+      intros q m Hq. rewrite lookup_delete_subtree in Hq. destruct (is_prefix v q) eqn:Ep; [discriminate|].
+      destruct (proj2 W2 q m Hq) as [Hnd Hinc]. split; [exact Hnd|].
+      intros x Hx. apply kids_of_In. rewrite has_node_delete.
+      assert (Hc : has_node (st_tree st2) (q ++ [x]) = true) by (apply kids_of_In; apply Hinc; exact Hx).
+      rewrite Hc. simpl. destruct (is_prefix v (q ++ [x])) eqn:Ep2; [|reflexivity]. exfalso.
+      pose proof (is_prefix_snoc _ _ _ Ep2 Ep) as Ev. subst v.
+      unfold parent_of, last_name in S2. rewrite removelast_snoc, last_snoc in S2.
+      assert (Hx2 : In x (index_at (st_tree st2) q)) by (rewrite (index_at_lookup _ _ _ Hq); exact Hx).
+      destruct (S2 q x Hx2) as [_ Hne]. apply (Hne eq_refl). reflexivity.
+    + intros q. unfold index_at at 1. rewrite lookup_delete_subtree. destruct (is_prefix v q) eqn:Ep.
+      * symmetry. apply Hempty. exact Ep.
+      * reflexivity.
+  - apply (I6_shrink st); [exact H6 | simpl; congruence |].
+    intros q x Hx. simpl in Hx. unfold index_at in Hx at 1. rewrite lookup_delete_subtree in Hx.
+    destruct (is_prefix v q); [inversion Hx|].
+    apply S1. apply (S2 q x). exact Hx.
+Qed.
+
+Lemma add_node_Mid : forall st q, Mid st -> Mid (with_tree st (add_node (st_tree st) q)).
+Proof.
+  intros st q [M H6]. split.
+  - apply tree_same_MidA; [exact M | apply twf_add_node; apply (mA_twf st M) | intro p; apply index_at_add_node].
+  - apply (I6_shrink st); [exact H6 | reflexivity |]. intros p x Hx. simpl in Hx. rewrite index_at_add_node in Hx. exact Hx.
+Qed.
+
+Lemma insert_ordered_child_name : forall kids n b x, snd (fst (insert_ordered_child kids n b (Some x))) = x.
+Proof.
+  intros kids n b x. unfold insert_ordered_child.
+  destruct (idx n); destruct (is_remove b); reflexivity.
+Qed.
+
+Lemma twf_insert_child : forall t p n n' nm,
+  twf t -> lookup t p = Some n -> has_node t (p ++ [nm]) = false -> wfn (kids_of t p ++ [nm]) n' ->
+  twf (add_node (set_node t p n') (p ++ [nm])).
+Proof.
+  intros t p n n' nm [Hk Hw] Hl Hh Hwn. split.
+  - apply keys_add_node_NoDup. rewrite keys_set_node. exact Hk.
+  - intros q m Hq. rewrite lookup_add_node, lookup_set_node, Hl in Hq.
+    assert (Hkids : forall q0, incl (kids_of t q0) (kids_of (add_node (set_node t p n') (p ++ [nm])) q0)).
+    { intro q0. eapply incl_tran; [|apply kids_of_add_node]. rewrite kids_of_set_node. apply incl_refl. }
+    destruct (path_eqb p q) eqn:E.
+    + apply path_eqb_eq in E. subst q. inversion Hq; subst m.
+      eapply wfn_incl; [|exact Hwn]. intros x Hx. apply in_app_or in Hx. destruct Hx as [Hx|[<-|[]]].
+      * apply Hkids. exact Hx.
+      * apply kids_of_In. rewrite has_node_add_node, path_eqb_refl. apply orb_true_r.
+    + destruct (lookup t q) as [m0|] eqn:El.
+      * inversion Hq; subst m0. eapply wfn_incl; [apply Hkids | apply Hw; exact El].
+      * destruct (path_eqb (p ++ [nm]) q); [|discriminate]. inversion Hq; subst. apply wfn_new.
+Qed.
+
+Lemma index_at_insert_child : forall t p n n' nm q, lookup t p = Some n ->
+  index_at (add_node (set_node t p n') (p ++ [nm])) q = if path_eqb p q then index_of n' else index_at t q.
+Proof. intros. rewrite index_at_add_node. apply index_at_set_node with (n := n). assumption. Qed.
+
+Lemma prim_insert_ordered_Mid : forall st s p b optname, Mid st -> Mid (prim_insert_ordered st s p b optname).
+Proof.
+  intros st s p b optname [M H6]. unfold prim_insert_ordered.
+  destruct (own s p && has_node (st_tree st) p) eqn:Eg; [|split; assumption].
+  apply andb_true_iff in Eg. destruct Eg as [Ho Eh].
+  destruct (has_node_lookup _ _ Eh) as [n Hl]. rewrite (node_at_lookup _ _ _ Hl).
+  destruct (insert_ordered_child (kids_of (st_tree st) p) n b optname) as [[n' nm] ops] eqn:Ei.
+  destruct (has_node (st_tree st) (p ++ [nm])) eqn:Eh2; [split; assumption|].
+  assert (Hfresh : forall x, optname = Some x -> ~ In x (kids_of (st_tree st) p)).
+  { intros x -> Hin. pose proof (insert_ordered_child_name (kids_of (st_tree st) p) n b x) as Hn. rewrite Ei in Hn. simpl in Hn. subst nm.
+    apply kids_of_In in Hin. congruence. }
+  destruct (insert_ordered_child_spec _ _ _ _ _ _ _ (proj2 (mA_twf st M) p n Hl) Hfresh Ei) as (_ & W & R).
+  split.
+  - apply MidA_set_ipres. apply tree_step_MidA.
+    + exact M.
+    + eapply twf_insert_child; try eassumption. apply (mA_twf st M).
+    + intros q Hq. rewrite (index_at_insert_child _ _ n) by exact Hl.
+      replace (path_eqb p q) with false; [reflexivity|]. symmetry. apply path_eqb_neq. congruence.
+    + rewrite (index_at_insert_child _ _ n) by exact Hl. rewrite path_eqb_refl, (index_at_lookup _ _ _ Hl). exact R.
+  - apply I6_set_ipres. intros s' Hne. apply (J_other st _ s s' p); [reflexivity | exact Ho | exact Hne | | apply H6].
+    intros q Hq. simpl. rewrite (index_at_insert_child _ _ n) by exact Hl.
+    replace (path_eqb p q) with false; [reflexivity|]. symmetry. apply path_eqb_neq. congruence.
+Qed.
+
+Lemma prim_reorder_Mid : forall cfg st s p c b, fix_reorder_ipres cfg = true -> Mid st ->
+  Mid (prim_reorder cfg st s p c b).
+Proof.
+  intros cfg st s p c b Hfix [M H6]. unfold prim_reorder. rewrite Hfix.
+  destruct (own s p && has_node (st_tree st) p && has_node (st_tree st) (p ++ [c])) eqn:Eg; [|split; assumption].
+  apply andb_true_iff in Eg. destruct Eg as [Eg Ec]. apply andb_true_iff in Eg. destruct Eg as [Ho Eh].
+  destruct (has_node_lookup _ _ Eh) as [n Hl]. rewrite (node_at_lookup _ _ _ Hl).
+  destruct (reorder_child (kids_of (st_tree st) p) n c b) as [n' ops] eqn:Er.
+  assert (Hc : In c (kids_of (st_tree st) p)) by (apply kids_of_In; exact Ec).
+  destruct (reorder_child_spec _ _ _ _ _ _ (proj2 (mA_twf st M) p n Hl) Hc Er) as (W & R & _).
+  split.
+  - apply MidA_set_ipres. eapply put_idx_MidA; eassumption.
+  - apply I6_set_ipres. intros s' Hne. apply (J_other st _ s s' p); [reflexivity | exact Ho | exact Hne | | apply H6].
+    intros q Hq. simpl. rewrite (index_at_set_node _ _ n) by exact Hl.
+    replace (path_eqb p q) with false; [reflexivity|]. symmetry. apply path_eqb_neq. congruence.
+Qed.
+
+Lemma set_data_node_aux_Mid : forall rel st s cur addidx b, Mid st ->
+  Mid (set_data_node_aux st s cur rel addidx b).
+Proof.
+  induction rel as [|c rest IH]; intros st s cur addidx b HM; [exact HM|].
+  destruct rest as [|c2 rest].
+  - cbn [set_data_node_aux].
+    destruct (has_node (st_tree st) (cur ++ [c])).
+    + destruct addidx; [exact HM|]. destruct (is_remove b); [apply prim_remove_entry_Mid; exact HM | exact HM].
+    + destruct addidx; [apply prim_insert_ordered_Mid; assumption | apply add_node_Mid; exact HM].
+  - change (set_data_node_aux st s cur (c :: c2 :: rest) addidx b)
+      with (set_data_node_aux (with_tree st (add_node (st_tree st) (cur ++ [c]))) s (cur ++ [c]) (c2 :: rest) addidx b).
+    apply IH. apply add_node_Mid. exact HM.
+Qed.
+
+Lemma own_root : forall s, own s [NS s] = true.
+Proof. intro s. simpl. apply Nat.eqb_refl. Qed.
+
+Lemma set_data_node_Mid : forall st s rel addidx b, Mid st -> Mid (set_data_node st s rel addidx b).
+Proof.
+  intros st s rel addidx b HM. unfold set_data_node.
+  destruct (has_node (st_tree st) [NS s]); [|exact HM]. apply set_data_node_aux_Mid. exact HM.
+Qed.
+
+(* ------------------------------------------------------------------ GETDATA, subscribe, unsubscribe *)
+
+Definition gd_ops (ip rf : bool) (s : nat) (e : path * inode) : list iop :=
+  if own s (fst e) && negb ip && negb rf then [] else snapshot (snd e).
+
+Definition gd_events (ip rf : bool) (s : nat) (L : list (path * inode)) : list event :=
+  flat_map (fun e => map (fun o => (s, fst e, o)) (gd_ops ip rf s e)) L.
+
+Lemma getdata_node_as_fold : forall st s e,
+  getdata_node st s e = fold_left deliver1 (map (fun o => (s, fst e, o)) (gd_ops (st_ipres st s) (st_refl st s) s e)) st.
+Proof.
+  intros st s [p n]. unfold getdata_node, gd_ops. simpl fst. simpl snd.
+  destruct (own s p && negb (st_ipres st s) && negb (st_refl st s)); reflexivity.
+Qed.
+
+Lemma getdata_as_fold : forall L st s,
+  fold_left (fun st e => getdata_node st s e) L st = fold_left deliver1 (gd_events (st_ipres st s) (st_refl st s) s L) st.
+Proof.
+  induction L as [|e L IH]; intros st s; [reflexivity|].
+  cbn [fold_left]. unfold gd_events. cbn [flat_map]. rewrite fold_left_app.
+  rewrite IH. rewrite getdata_node_as_fold.
+  destruct (fold_deliver_fields (map (fun o => (s, fst e, o)) (gd_ops (st_ipres st s) (st_refl st s) s e)) st) as (_ & _ & _ & D & E & _).
+  rewrite D, E. reflexivity.
+Qed.
+
+Lemma pend_for_gd_other : forall ip rf s L s' q, s' <> s -> pend_for (gd_events ip rf s L) s' q = [].
+Proof.
+  intros ip rf s L s' q Hne. induction L as [|e L IH]; [reflexivity|].
+  unfold gd_events in *. cbn [flat_map]. rewrite pend_for_app, IH, pend_for_map.
+  replace (Nat.eqb s s') with false by (symmetry; apply Nat.eqb_neq; congruence). reflexivity.
+Qed.
+
+Lemma pend_for_gd : forall ip rf s L q,
+  pend_for (gd_events ip rf s L) s q = flat_map (fun e => if path_eqb (fst e) q then gd_ops ip rf s e else []) L.
+Proof.
+  intros ip rf s L q. induction L as [|e L IH]; [reflexivity|].
+  unfold gd_events in *. cbn [flat_map]. rewrite pend_for_app, IH, pend_for_map, Nat.eqb_refl. reflexivity.
+Qed.
+
+Lemma flat_map_key_absent : forall (F : path * inode -> list iop) L q, ~ In q (map fst L) ->
+  flat_map (fun e => if path_eqb (fst e) q then F e else []) L = [].
+Proof.
+  intros F L q H. induction L as [|e L IH]; [reflexivity|]. simpl.
+  destruct (path_eqb (fst e) q) eqn:E.
+  - exfalso. apply H. left. apply path_eqb_eq. exact E.
+  - simpl. apply IH. intro Hin. apply H. right. exact Hin.
+Qed.
+
+Lemma flat_map_key_unique : forall (F : path * inode -> list iop) L q n, NoDup (map fst L) -> In (q, n) L ->
+  flat_map (fun e => if path_eqb (fst e) q then F e else []) L = F (q, n).
+Proof.
+  intros F L q n Hn Hin. induction L as [|e L IH]; [inversion Hin|]. simpl in Hn. inversion Hn as [|? ? Hh Ht]; subst. simpl.
+  destruct Hin as [->|Hin].
+  - simpl. rewrite path_eqb_refl. rewrite flat_map_key_absent by exact Hh. apply app_nil_r.
+  - destruct (path_eqb (fst e) q) eqn:E.
+    + exfalso. apply path_eqb_eq in E. apply Hh. rewrite E. apply in_map_iff. exists (q, n). split; [reflexivity | exact Hin].
+    + simpl. apply IH; assumption.
+Qed.
+
+Lemma NoDup_keys_filter : forall (f : path * inode -> bool) t, NoDup (map fst t) -> NoDup (map fst (filter f t)).
+Proof.
+  intros f t H. induction t as [|e t IH]; [constructor|]. simpl in H. inversion H as [|? ? Hh Ht]; subst. simpl.
+  destruct (f e); [|apply IH; exact Ht]. simpl. constructor; [|apply IH; exact Ht].
+  intro Hin. apply Hh. apply in_map_iff in Hin. destruct Hin as [e' [E Hin]]. apply filter_In in Hin.
+  apply in_map_iff. exists e'. split; [exact E | apply Hin].
+Qed.
+
+(* replaying the snapshots of a GETDATA onto a replica that already equals the index changes nothing *)
+Lemma replay_gd_same : forall ip rf s t L q, (forall e, In e L -> lookup t (fst e) = Some (snd e)) ->
+  replay (flat_map (fun e => if path_eqb (fst e) q then gd_ops ip rf s e else []) L) (index_at t q) = index_at t q.
+Proof.
+  intros ip rf s t L q H. induction L as [|e L IH]; [reflexivity|]. simpl. rewrite replay_app.
+  assert (Hhd : replay (if path_eqb (fst e) q then gd_ops ip rf s e else []) (index_at t q) = index_at t q).
+  { destruct (path_eqb (fst e) q) eqn:E; [|reflexivity]. apply path_eqb_eq in E.
+    unfold gd_ops. destruct (own s (fst e) && negb ip && negb rf); [reflexivity|].
+    assert (Hl : lookup t q = Some (snd e)) by (rewrite <- E; apply H; left; reflexivity).
+    rewrite (index_at_lookup _ _ _ Hl). apply replay_snapshot_same. }
+  rewrite Hhd. apply IH. intros e' He'. apply H. right. exact He'.
+Qed.
+
+Lemma getdata_fields : forall st s pat,
+  st_n (getdata st s pat) = st_n st /\ st_tree (getdata st s pat) = st_tree st /\ st_subs (getdata st s pat) = st_subs st /\
+  st_ipres (getdata st s pat) = st_ipres st /\ st_refl (getdata st s pat) = st_refl st /\ st_pend (getdata st s pat) = st_pend st.
+Proof. intros st s pat. unfold getdata. rewrite getdata_as_fold. apply fold_deliver_fields. Qed.
+
+Lemma getdata_Inv_gen : forall st s pat,
+  twf (st_tree st) -> I6 st -> st_pend st = [] ->
+  (forall s' p, subscribed st s' p = false -> st_mirror st s' p = []) ->
+  (forall s' p, replay (st_hist st s' p) [] = st_mirror st s' p) ->
+  (forall s', st_n st <= s' -> st_subs st s' = []) ->
+  (forall s' p, subscribed st s' p = true ->
+     st_mirror st s' p = index_at (st_tree st) p \/ (s' = s /\ pmatch pat p = true /\ st_mirror st s' p = [])) ->
+  Inv (getdata st s pat).
+Proof.
+  intros st s pat W H6 Hp Hun Hh Hn Hsub.
+  destruct (getdata_fields st s pat) as (A & B & C & D & E & F).
+  set (L := filter (fun e : path * inode => pmatch pat (fst e)) (st_tree st)).
+  assert (HL : forall e, In e L -> lookup (st_tree st) (fst e) = Some (snd e)).
+  { intros [p n] He. apply filter_In in He. apply In_lookup; [apply W | apply He]. }
+  assert (Hm : forall s' p, st_mirror (getdata st s pat) s' p =
+            if subscribed st s' p then replay (pend_for (gd_events (st_ipres st s) (st_refl st s) s L) s' p) (st_mirror st s' p) else st_mirror st s' p).
+  { intros s' p. unfold getdata. rewrite getdata_as_fold. apply fold_deliver_mirror. }
+  assert (Hhi : forall s' p, st_hist (getdata st s pat) s' p =
+            if subscribed st s' p then st_hist st s' p ++ pend_for (gd_events (st_ipres st s) (st_refl st s) s L) s' p else st_hist st s' p).
+  { intros s' p. unfold getdata. rewrite getdata_as_fold. apply fold_deliver_hist. }
+  split; [|split].
+  - constructor.
+    + rewrite B. exact W.
+    + intros s' p Hs. rewrite (subscribed_subs st _ s' p C) in Hs. rewrite F, Hp, B. simpl. rewrite Hm, Hs.
+      destruct (Nat.eq_dec s' s) as [->|Hne].
+      * rewrite pend_for_gd. destruct (Hsub s p Hs) as [Ha|(_ & Hpm & Hb)].
+        -- rewrite Ha. apply replay_gd_same. exact HL.
+        -- rewrite Hb. destruct (lookup (st_tree st) p) as [n|] eqn:El.
+           ++ assert (Hin : In (p, n) L) by (apply filter_In; split; [apply lookup_In; exact El | exact Hpm]).
+              rewrite (flat_map_key_unique _ L p n); [|apply NoDup_keys_filter; apply W | exact Hin].
+              unfold gd_ops. simpl fst. simpl snd. rewrite (index_at_lookup _ _ _ El).
+              destruct (own s p && negb (st_ipres st s) && negb (st_refl st s)) eqn:Esk.
+              ** apply andb_true_iff in Esk. destruct Esk as [Esk _]. apply andb_true_iff in Esk. destruct Esk as [Eo Ei].
+                 destruct (H6 s) as [Hi|Hi]; [rewrite Hi in Ei; discriminate|].
+                 rewrite <- (index_at_lookup _ _ _ El). rewrite (Hi p Eo). reflexivity.
+              ** apply replay_snapshot_empty.
+           ++ rewrite flat_map_key_absent.
+              ** unfold index_at. rewrite El. reflexivity.
+              ** intro Hin. apply in_map_iff in Hin. destruct Hin as [[p' n'] [Ep Hin]]. simpl in Ep. subst p'.
+                 pose proof (HL _ Hin) as Hl. simpl in Hl. congruence.
+      * rewrite pend_for_gd_other by exact Hne. simpl.
+        destruct (Hsub s' p Hs) as [Ha|(Hc & _)]; [exact Ha | contradiction].
+    + intros s' p Hs. rewrite (subscribed_subs st _ s' p C) in Hs. rewrite F, Hp. split; [|reflexivity].
+      rewrite Hm, Hs. apply Hun. exact Hs.
+    + intros s' p. rewrite Hm, Hhi. destruct (subscribed st s' p); [|apply Hh].
+      rewrite replay_app, Hh. reflexivity.
+    + intros s' Hs'. rewrite A in Hs'. rewrite C. apply Hn. exact Hs'.
+  - intro s'. apply (J_ext st); [exact D | exact B | apply H6].
+  - rewrite F. exact Hp.
+Qed.
+
+Lemma getdata_Inv : forall st s pat, Inv st -> Inv (getdata st s pat).
+Proof.
+  intros st s pat (M & H6 & Hp). apply getdata_Inv_gen; try assumption.
+  - apply (mA_twf st M).
+  - intros s' p Hs. apply (mA_unsub st M s' p Hs).
+  - apply (mA_hist st M).
+  - apply (mA_n st M).
+  - intros s' p Hs. left. pose proof (mA_sub st M s' p Hs) as H. rewrite Hp in H. exact H.
+Qed.
+
+Lemma clause_eqb_eq : forall a b, clause_eqb a b = true -> a = b.
+Proof.
+  intros [|x] [|y] H; simpl in H; try discriminate; [reflexivity|]. apply name_eqb_eq in H. subst. reflexivity.
+Qed.
+
+Lemma pattern_eqb_eq : forall a b, pattern_eqb a b = true -> a = b.
+Proof.
+  induction a as [|x a IH]; intros [|y b] H; simpl in H; try discriminate; [reflexivity|].
+  apply andb_true_iff in H. destruct H as [H1 H2]. apply clause_eqb_eq in H1. apply IH in H2. subst. reflexivity.
+Qed.
+
+Lemma subscribed_in_add : forall l pat p, subscribed_in (add_sub l pat) p = subscribed_in l p || pmatch pat p.
+Proof.
+  intros l pat p. unfold add_sub. destruct (existsb (pattern_eqb pat) l) eqn:E.
+  - apply existsb_exists in E. destruct E as [x [Hx Ex]]. apply pattern_eqb_eq in Ex. subst x.
+    destruct (pmatch pat p) eqn:Em; [|rewrite orb_false_r; reflexivity].
+    rewrite orb_true_r. unfold subscribed_in. apply existsb_exists. exists pat. split; assumption.
+  - unfold subscribed_in. rewrite existsb_app. simpl. rewrite orb_false_r. reflexivity.
+Qed.
+
+Lemma subscribe_Inv : forall st s pat, Inv st -> s < st_n st -> Inv (subscribe st s pat).
+Proof.
+  intros st s pat (M & H6 & Hp) Hlt. unfold subscribe.
+  set (st0 := set_subs st s (add_sub (st_subs st s) pat)).
+  assert (Hsub0 : forall s' p, subscribed st0 s' p = if Nat.eqb s' s then subscribed st s p || pmatch pat p else subscribed st s' p).
+  { intros s' p. unfold subscribed, st0. simpl. destruct (Nat.eqb s' s) eqn:E; [|reflexivity].
+    apply Nat.eqb_eq in E. subst s'. apply subscribed_in_add. }
+  apply getdata_Inv_gen.
+  - apply (mA_twf st M).
+  - exact H6.
+  - exact Hp.
+  - intros s' p Hs. rewrite Hsub0 in Hs. simpl. apply (mA_unsub st M s' p).
+    destruct (Nat.eqb s' s) eqn:E; [|exact Hs]. apply Nat.eqb_eq in E. subst s'.
+    apply orb_false_iff in Hs. apply Hs.
+  - apply (mA_hist st M).
+  - intros s' Hs'. simpl in *. destruct (Nat.eqb s' s) eqn:E; [apply Nat.eqb_eq in E; lia | apply (mA_n st M s' Hs')].
+  - intros s' p Hs. rewrite Hsub0 in Hs. simpl.
+    destruct (subscribed st s' p) eqn:Eo.
+    + left. pose proof (mA_sub st M s' p Eo) as H. rewrite Hp in H. exact H.
+    + right. destruct (Nat.eqb s' s) eqn:E; [|congruence]. apply Nat.eqb_eq in E. subst s'.
+      rewrite Eo in Hs. simpl in Hs. split; [reflexivity|]. split; [exact Hs|]. apply (mA_unsub st M s p Eo).
+Qed.
+
+Lemma unsubscribe_Inv : forall st s pat, Inv st -> Inv (unsubscribe st s pat).
+Proof.
+  intros st s pat (M & H6 & Hp). unfold unsubscribe.
+  set (l := filter (fun q => negb (pattern_eqb pat q)) (st_subs st s)).
+  assert (Hl : forall p, subscribed_in l p = true -> subscribed st s p = true).
+  { intros p H. unfold subscribed_in in H. apply existsb_exists in H. destruct H as [x [Hx Hm]].
+    apply filter_In in Hx. unfold subscribed, subscribed_in. apply existsb_exists. exists x. split; [apply Hx | exact Hm]. }
+  split; [|split; [exact H6 | exact Hp]].
+  constructor; simpl.
+  - apply (mA_twf st M).
+  - intros s' p Hs. unfold subscribed in Hs. simpl in Hs. rewrite Hp. simpl.
+    destruct (Nat.eqb s' s) eqn:E.
+    + apply Nat.eqb_eq in E. subst s'. fold (subscribed_in l p) in Hs. simpl. rewrite Hs.
+      pose proof (mA_sub st M s p (Hl p Hs)) as H. rewrite Hp in H. exact H.
+    + simpl. pose proof (mA_sub st M s' p Hs) as H. rewrite Hp in H. exact H.
+  - intros s' p Hs. unfold subscribed in Hs. simpl in Hs. rewrite Hp. split; [|reflexivity].
+    destruct (Nat.eqb s' s) eqn:E.
+    + apply Nat.eqb_eq in E. subst s'. fold (subscribed_in l p) in Hs. simpl. rewrite Hs. reflexivity.
+    + simpl. apply (mA_unsub st M s' p Hs).
+  - intros s' p. destruct (negb (Nat.eqb s' s) || subscribed_in l p); [apply (mA_hist st M) | reflexivity].
+  - intros s' Hs'. destruct (Nat.eqb s' s) eqn:E; [|apply (mA_n st M s' Hs')].
+    apply Nat.eqb_eq in E. subst s'. unfold l. rewrite (mA_n st M s Hs'). reflexivity.
+Qed.
+
+(* ------------------------------------------------------------------ CloneDataNodeSubtree (repaired) *)
+
+Lemma copy_index_spec : forall cfg s dst l st w, fix_clone cfg = true -> own s dst = true ->
+  MidA st -> I6x s st -> has_node (st_tree st) dst = true ->
+  MidA (copy_index cfg st dst l w) /\ I6x s (copy_index cfg st dst l w).
+Proof.
+  intros cfg s dst l. induction l as [|nm rest IH]; intros st w Hfix Ho M Hx Hd; [split; assumption|].
+  cbn [copy_index]. rewrite Hfix.
+  destruct (mem nm (kids_of (st_tree st) dst)) eqn:Em; [|apply IH; assumption].
+  destruct (prim_remove_entry_spec st dst nm M) as (M0 & I0 & K0 & S0).
+  set (st0 := prim_remove_entry st dst nm) in *.
+  assert (Hd0 : has_node (st_tree st0) dst = true) by (rewrite (has_node_keys _ _ dst K0); exact Hd).
+  destruct (has_node_lookup _ _ Hd0) as [n0 Hl0]. rewrite (node_at_lookup _ _ _ Hl0).
+  destruct (insert_index_entry_at (kids_of (st_tree st0) dst) n0 w nm) as [n' ops] eqn:Ei.
+  assert (Hnot : ~ In nm (index_of n0)).
+  { intro Hin. rewrite <- (index_at_lookup _ _ _ Hl0) in Hin. destruct (S0 dst nm Hin) as [_ Hne]. apply (Hne eq_refl). reflexivity. }
+  destruct (insert_index_entry_at_spec _ _ _ _ _ _ (proj2 (mA_twf st0 M0) dst n0 Hl0) Hnot Ei) as (W & R & _).
+  assert (Hx0 : I6x s st0).
+  { apply (I6x_shrink s st); [exact Hx | exact I0 | intros q x Hq; apply (S0 q x Hq)]. }
+  apply IH; try assumption.
+  - eapply put_idx_MidA; eassumption.
+  - intros s' Hne. apply (J_other st0 _ s s' dst); [reflexivity | exact Ho | exact Hne | | apply Hx0; exact Hne].
+    intros q Hq. simpl. rewrite (index_at_set_node _ _ n0) by exact Hl0.
+    replace (path_eqb dst q) with false; [reflexivity|]. symmetry. apply path_eqb_neq. congruence.
+  - simpl. rewrite has_node_set_node. exact Hd0.
+Qed.
+
+Lemma clone_Mid : forall cfg fuel st s src dstrel addidx b, fix_clone cfg = true -> Mid st ->
+  Mid (clone cfg fuel st s src dstrel addidx b).
+Proof.
+  intros cfg fuel. induction fuel as [|f IH]; intros st s src dstrel addidx b Hfix HM; [exact HM|].
+  cbn [clone]. destruct (has_node (st_tree st) src); [|exact HM].
+  set (st1 := set_data_node st s dstrel addidx b).
+  assert (HM1 : Mid st1) by (apply set_data_node_Mid; exact HM).
+  assert (Hfold : forall ks st', Mid st' ->
+            Mid (fold_left (fun st k => clone cfg f st s (src ++ [k]) (dstrel ++ [k]) false BEnd) ks st')).
+  { induction ks as [|k ks IHk]; intros st' HM'; [exact HM'|]. simpl. apply IHk. apply IH; assumption. }
+  specialize (Hfold (kids_of (st_tree st1) src) st1 HM1).
+  set (st2 := fold_left (fun st k => clone cfg f st s (src ++ [k]) (dstrel ++ [k]) false BEnd) (kids_of (st_tree st1) src) st1) in *.
+  destruct (idx (node_at st2 src)) as [l|]; [|exact Hfold].
+  destruct (has_node (st_tree st2) (NS s :: dstrel)) eqn:Ed; [|exact Hfold].
+  rewrite Hfix. destruct Hfold as [M2 H62].
+  assert (Ho : own s (NS s :: dstrel) = true) by (simpl; apply Nat.eqb_refl).
+  destruct (copy_index_spec cfg s (NS s :: dstrel) l st2 0 Hfix Ho M2 (I6_I6x _ _ H62) Ed) as [M3 X3].
+  split; [apply MidA_set_ipres; exact M3 | apply I6_set_ipres; exact X3].
+Qed.
+
+(* ------------------------------------------------------------------ commands, steps, runs *)
+
+Definition cfg_ok (cfg : config) : Prop := fix_reorder_ipres cfg = true /\ fix_clone cfg = true.
+
+Lemma Inv_Mid : forall st, Inv st -> Mid st.
+Proof. intros st (M & H & _). split; assumption. Qed.
+
+Lemma fold_Mid : forall (A : Type) (f : state -> A -> state) l st,
+  (forall st a, Mid st -> Mid (f st a)) -> Mid st -> Mid (fold_left f l st).
+Proof. intros A f l. induction l as [|a l IH]; intros st Hf HM; [exact HM|]. simpl. apply IH; [exact Hf | apply Hf; exact HM]. Qed.
+
+Lemma handle_Mid : forall cfg st s c, cfg_ok cfg -> Inv st -> s < st_n st -> Mid (handle cfg st s c).
+Proof.
+  intros cfg st s c [Hf1 Hf2] HI Hlt. pose proof (Inv_Mid st HI) as HM.
+  destruct c; cbn [handle].
+  - apply set_data_node_Mid; exact HM.
+  - apply fold_Mid; [|exact HM]. intros st' p HM'. apply fold_Mid; [|exact HM'].
+    intros st'' b HM''. apply prim_insert_ordered_Mid; exact HM''.
+  - apply fold_Mid; [|exact HM]. intros st' q HM'. apply prim_reorder_Mid; assumption.
+  - apply fold_Mid; [|exact HM]. intros st' v HM'. apply prim_remove_node_Mid; exact HM'.
+  - apply Inv_Mid. apply subscribe_Inv; assumption.
+  - apply Inv_Mid. apply unsubscribe_Inv; assumption.
+  - apply Inv_Mid. apply getdata_Inv; assumption.
+  - destruct HM as [M H6]. split; [apply MidA_set_refl; exact M | apply I6_set_refl; exact H6].
+  - exact HM.
+  - apply set_data_node_Mid; exact HM.
+  - apply clone_Mid; assumption.
+Qed.
+
+Lemma flush_n : forall st, st_n (flush st) = st_n st.
+Proof. intro st. unfold flush. destruct (fold_deliver_fields (st_pend st) (with_pend st [])) as (A & _). exact A. Qed.
+
+Lemma exec_Inv : forall cfg s st c, cfg_ok cfg -> Inv st -> Inv (exec cfg s st c).
+Proof.
+  intros cfg s st c Hc HI. unfold exec. destruct (s <? st_n st) eqn:E; [|exact HI].
+  apply Nat.ltb_lt in E. destruct (handle_Mid cfg st s c Hc HI E) as [M H6]. apply flush_Inv; assumption.
+Qed.
+
+Lemma Inv_with_out : forall st o, Inv st -> Inv (with_out st o).
+Proof. intros st o (M & H6 & Hp). split; [|split; [exact H6 | exact Hp]]. destruct M. constructor; assumption. Qed.
+
+Lemma step_Inv : forall cfg st sc, cfg_ok cfg -> Inv st -> Inv (step cfg st sc).
+Proof.
+  intros cfg st [s cmds] Hc HI. unfold step. simpl.
+  assert (H : forall l st', Inv st' -> Inv (fold_left (exec cfg s) l st')).
+  { induction l as [|c l IH]; intros st' HI'; [exact HI'|]. simpl. apply IH. apply exec_Inv; assumption. }
+  apply H. apply Inv_with_out. exact HI.
+Qed.
+
+Lemma init_tree_lookup : forall n p m, lookup (init_tree n) p = Some m -> m = new_node.
+Proof.
+  intros n p m H. apply lookup_In in H. unfold init_tree in H. apply in_map_iff in H.
+  destruct H as [s [E _]]. inversion E. reflexivity.
+Qed.
+
+Lemma init_Inv : forall n, Inv (init_state n).
+Proof.
+  intro n. split; [|split].
+  - constructor; simpl.
+    + split.
+      * unfold init_tree. rewrite map_map. simpl. apply FinFun.Injective_map_NoDup; [|apply seq_NoDup].
+        intros x y H. inversion H. reflexivity.
+      * intros p m H. rewrite (init_tree_lookup _ _ _ H). apply wfn_new.
+    + intros s p H. discriminate.
+    + intros s p _. split; reflexivity.
+    + intros s p. reflexivity.
+    + intros s _. reflexivity.
+  - intro s. right. intros p _. simpl. unfold index_at.
+    destruct (lookup (init_tree n) p) as [m|] eqn:E; [rewrite (init_tree_lookup _ _ _ E)|]; reflexivity.
+  - reflexivity.
+Qed.
+
+Theorem run_Inv : forall cfg n steps, cfg_ok cfg -> Inv (run cfg n steps).
+Proof.
+  intros cfg n steps Hc. unfold run.
+  assert (H : forall l st, Inv st -> Inv (fold_left (step cfg) l st)).
+  { induction l as [|sc l IH]; intros st HI; [exact HI|]. simpl. apply IH. apply step_Inv; assumption. }
+  apply H. apply init_Inv.
+Qed.
+
+Lemma cfg_fixed_ok : cfg_ok cfg_fixed.
+Proof. split; reflexivity. Qed.
+
+(* ------------------------------------------------------------------ the statements of C13 *)
+
+(* index_inv: after every history, every index lists only existing children of its node, each at most once *)
+Theorem index_inv : forall n steps p,
+  let t := st_tree (run cfg_fixed n steps) in
+  NoDup (index_at t p) /\ forall k, In k (index_at t p) -> has_node t (p ++ [k]) = true.
+Proof.
+  intros n steps p t. destruct (run_Inv cfg_fixed n steps cfg_fixed_ok) as (M & _ & _).
+  split; [apply twf_index_NoDup | intros k Hk; apply twf_index_child]; try apply (mA_twf _ M). exact Hk.
+Qed.
+
+(* replay_eq: at every quiescent point the replica of every subscriber equals the server's index, and it is
+   what replaying (from nothing) everything delivered since the subscription -- snapshot first -- yields *)
+Theorem replay_eq : forall n steps s p,
+  let st := run cfg_fixed n steps in
+  subscribed st s p = true ->
+  replay (st_hist st s p) [] = index_at (st_tree st) p /\ st_mirror st s p = index_at (st_tree st) p.
+Proof.
+  intros n steps s p st Hs. destruct (run_Inv cfg_fixed n steps cfg_fixed_ok) as (M & _ & Hp).
+  fold st in M, Hp. pose proof (mA_sub st M s p Hs) as H. rewrite Hp in H. simpl in H.
+  split; [rewrite (mA_hist st M s p)|]; exact H.
+Qed.
+
+(* nothing is left pending at a quiescent point, and a client holds nothing for nodes it is not subscribed to *)
+Theorem quiescent_clean : forall n steps,
+  let st := run cfg_fixed n steps in
+  st_pend st = [] /\ forall s p, subscribed st s p = false -> st_mirror st s p = [].
+Proof.
+  intros n steps st. destruct (run_Inv cfg_fixed n steps cfg_fixed_ok) as (M & _ & Hp). fold st in M, Hp.
+  split; [exact Hp | intros s p Hs; apply (mA_unsub st M s p Hs)].
+Qed.
+
+(* a child that does not exist is in no index *)
+Theorem absent_child_not_indexed : forall n steps p k,
+  let t := st_tree (run cfg_fixed n steps) in has_node t (p ++ [k]) = false -> ~ In k (index_at t p).
+Proof.
+  intros n steps p k t Hh Hin. destruct (index_inv n steps p) as [_ H]. fold t in H. rewrite (H k Hin) in Hh. discriminate.
+Qed.
+
+(* remove_drops_entry: removing a node (with its subtree) removes it from the tree and from its parent's index *)
+Theorem remove_drops_entry : forall st v, Mid st -> has_node (st_tree st) v = true -> 2 <= length v ->
+  let st' := prim_remove_node st v in
+  has_node (st_tree st') v = false /\ ~ In (last_name v) (index_at (st_tree st') (parent_of v)) /\ Mid st'.
+Proof.
+  intros st v HM Hh Hl st'. pose proof (prim_remove_node_Mid st v HM) as HM'. fold st' in HM'.
+  assert (Hgone : has_node (st_tree st') v = false).
+  { unfold st', prim_remove_node. rewrite Hh. replace (2 <=? length v) with true by (symmetry; apply Nat.leb_le; exact Hl).
+    simpl. rewrite has_node_delete, is_prefix_refl. apply andb_false_r. }
+  split; [exact Hgone|]. split; [|exact HM'].
+  intro Hin. apply (twf_index_child _ _ _ (mA_twf _ (proj1 HM'))) in Hin.
+  assert (Hv : v = parent_of v ++ [last_name v]).
+  { unfold parent_of, last_name. apply app_removelast_last. intro E. subst v. simpl in Hl. lia. }
+  rewrite <- Hv in Hin. congruence.
 Qed.
